@@ -59,7 +59,7 @@ theorem mem_contrib {q : Name} {c : Comp} {e : Entry} (h : e ∈ contrib q c) :
         ∨ (∃ r ∈ b.reads, e = .read (q, b.name) (absr q r))
         ∨ (∃ r ∈ b.writes, e = .write (q, b.name) (absr q r))
         ∨ (∃ r ∈ b.calls, e = .call (q, b.name) (absr q r)))
-    ∨ (∃ x ∈ c.uu, e = .uu q (q, x.1) (q, x.2))
+    ∨ (∃ x ∈ c.uu, e = .uu q (absr q x.1) (absr q x.2))
     ∨ (∃ x ∈ c.rdu, e = .rdu q (absr q x.1) x.2.1 (q, x.2.2))
     ∨ (∃ x ∈ c.wru, e = .wru q (absr q x.1) x.2.1 (q, x.2.2))
     ∨ (∃ x ∈ c.mcs, e = .mc q (absm q x.1) (absm q x.2.1) x.2.2)
@@ -189,6 +189,7 @@ structure Disciplined (c : Comp) : Prop where
   reads : ∀ b ∈ c.blks, ∀ r ∈ b.reads, r.1.length ≤ 1
   writes : ∀ b ∈ c.blks, ∀ r ∈ b.writes, r.1.length ≤ 1
   calls : ∀ b ∈ c.blks, ∀ r ∈ b.calls, r.1.length ≤ 1
+  uu : ∀ x ∈ c.uu, x.1.1.length ≤ 1 ∧ x.2.1.length ≤ 1
   rdu : ∀ x ∈ c.rdu, x.1.1.length ≤ 1
   wru : ∀ x ∈ c.wru, x.1.1.length ≤ 1
   mcs : ∀ x ∈ c.mcs, x.1.short ∧ x.2.1.short
@@ -217,7 +218,7 @@ theorem parent_of_mref {p q : Name} {x : LMRef} (hq : under p q = false) (hs : x
 theorem saved_from_parent {p q : Name} {c : Comp} {e : Entry} (hd : Disciplined c)
     (hq : under p q = false) (h : e ∈ contrib q c) (ht : touches p e = true) :
     ∃ a, p = q ++ [a] := by
-  rcases mem_contrib h with rfl | ⟨x, _, rfl⟩ | ⟨x, _, rfl⟩ | ⟨b, hb, h⟩ | ⟨x, _, rfl⟩ | ⟨x, hx, rfl⟩
+  rcases mem_contrib h with rfl | ⟨x, _, rfl⟩ | ⟨x, _, rfl⟩ | ⟨b, hb, h⟩ | ⟨x, hx, rfl⟩ | ⟨x, hx, rfl⟩
     | ⟨x, hx, rfl⟩ | ⟨x, hx, rfl⟩ | ⟨x, hx, h⟩ | ⟨x, hx, h⟩
   · simp_all [touches, owned]
   · simp_all [touches, owned]
@@ -229,7 +230,10 @@ theorem saved_from_parent {p q : Name} {c : Comp} {e : Entry} (hd : Disciplined 
     · exact parent_of_short hq (hd.reads b hb r hr) (by simpa [touches, hq, absr] using ht)
     · exact parent_of_short hq (hd.writes b hb r hr) (by simpa [touches, hq, absr] using ht)
     · exact parent_of_short hq (hd.calls b hb r hr) (by simpa [touches, hq, absr] using ht)
-  · simp_all [touches, owned]
+  · simp only [touches, hq, Bool.false_or, Bool.or_eq_true, absr] at ht
+    rcases ht with ht | ht
+    · exact parent_of_short hq (hd.uu x hx).1 ht
+    · exact parent_of_short hq (hd.uu x hx).2 ht
   · exact parent_of_short hq (hd.rdu x hx) (by simpa [touches, hq, absr] using ht)
   · exact parent_of_short hq (hd.wru x hx) (by simpa [touches, hq, absr] using ht)
   · simp only [touches, hq, Bool.false_or, Bool.or_eq_true] at ht
